@@ -77,7 +77,30 @@ def step_cases(tier):
                             x, ds = chain(t)
                             want = n or 1
                             if x is not L.in_term('x', ty, lane) or not ds:
-                                res.append(R.ob(oid, 'step_direction', R.UNDECIDED, 'not a next-after chain on the component: %s' % tm.show(t, 4)))
+                                # not the shape: refuted when the derived term, evaluated exactly (the concrete evaluator models nextafter and the conversions), does not
+                                # return the want-th neighbour of a sample value of the component's own format
+                                from laneflow import ceval as CE
+                                xin = L.in_term('x', ty, lane)
+                                w_ = ty.elem * 8
+                                big = tm.fconst(w_, (3.4028234663852886e+38 if w_ == 32 else 1.7976931348623157e+308) * (1 if up else -1))
+                                ref = xin
+                                for _ in range(want):
+                                    ref = tm.fn('nextafter', (ref, big), w_)
+                                wit = None
+                                for v in (1.0, -1.5, 3.0e-30, 123456.0):
+                                    env = {xin: CE.f2b(w_, v)}
+                                    try:
+                                        a_, b_ = CE.evaluate(t, env), CE.evaluate(ref, env)
+                                    except CE.NoValue:
+                                        continue
+                                    if a_ != b_:
+                                        wit = (v, a_, b_)
+                                        break
+                                if wit:
+                                    res.append(R.ob(oid, 'step_direction', R.REFUTED, '%s(%r) has the bit pattern %#x, the %s neighbour of the component\'s format (%d step(s)) is %#x; result term: %s' % (
+                                        fn, wit[0], wit[1], 'upper' if up else 'lower', want, wit[2], tm.show(t, 4)), where=R.where_of(it, t), kernel=k.source()))
+                                else:
+                                    res.append(R.ob(oid, 'step_direction', R.UNDECIDED, 'not a next-after chain on the component: %s' % tm.show(t, 4)))
                                 continue
                             oks = [direction_ok(d, up) for d in ds]
                             if len(ds) != want:
